@@ -903,7 +903,7 @@ PROPS = {
                       "(and the there/t-copy analogue), prefix_injective + merge_exists give distinct h/t copies; the model `gamma` is tied to "
                       "Gamma::gamma by exact tree equality on generated formulas on every run.",
         "level_note": PROOF_NOTE,
-        "technique": "Lean 4 proof by structural induction on formulas + differential correspondence (exact trees)",
+        "technique": "Lean 4 proof by structural induction on formulas + differential correspondence (exact trees) + the real command line against the model on tasks and files",
         "design_ref": "DESIGN.md 6/C05",
         "suites": [("gamma", 4000, 100000)],
         "extra": glue_theory_extra("C05", "gamma"),
@@ -928,7 +928,7 @@ PROPS = {
                       "The last two proofs hold only after the repairs fix: 8154c20 / f1b4fb0 (before them the statements were false; the counterexamples are in corpus/formulas.txt). "
                       "Free-variable claim: full - portfolio_no_new_free_variables (each of the 15 rewrites is free-variable non-increasing, lifted through compose, post-order apply and the fixpoint loop).",
         "level_note": PROOF_NOTE,
-        "technique": "Lean 4 proofs (per-rewrite HT/classical equivalence, congruence, composition, iteration) + differential correspondence",
+        "technique": "Lean 4 proofs (per-rewrite HT/classical equivalence, congruence, composition, iteration) + differential correspondence + the real command line against the model on tasks and files",
         "design_ref": "DESIGN.md 6/C07",
         "trusted_base": COMMON_TRUST,
         "assumptions": COMMON_ASSUME + ["fixpoint runs are compared up to a pass bound of 256; a run hitting the bound is reported under C18"],
@@ -979,7 +979,7 @@ PROPS = {
                       "Proved level by level: val (term induction; freshness of I,J,K,Q,R proved by pigeonhole + first-letter argument, no premise left), tau_b (fresh Z names), tau_star_rule (three head kinds, "
                       "global V<n> variables fresh for the whole program via the digit round trip of toString), program. stable_iff_equilibrium: stable models with input facts are exactly the equilibrium models of the theory. Since fix 1d6d77a (checked addition with a fallback in choose_fresh_global_variables) the fresh head variables are fresh for every program (chooseFreshGlobals_spec without hypothesis) and tau_star_correct_every_program states C01 with no hypothesis at all.",
         "level_note": PROOF_NOTE + " Semantics/Asp.lean (reference semantics of mini-gringo: division only for positive divisors, as the source documents) is part of the specification.",
-        "technique": "Lean 4 proof (induction on terms, body atoms, rules, programs; integer-sorted binders cannot capture general-sorted program variables; fresh names by pigeonhole) + differential correspondence",
+        "technique": "Lean 4 proof (induction on terms, body atoms, rules, programs; integer-sorted binders cannot capture general-sorted program variables; fresh names by pigeonhole) + differential correspondence + the real command line against the model on tasks and files",
         "design_ref": "DESIGN.md 0.3, 6/C01",
         "trusted_base": COMMON_TRUST + ["Semantics/Asp.lean reference semantics"],
         "assumptions": COMMON_ASSUME + ["globalsPanic = false (no usize overflow of the fresh global-variable indices) is a hypothesis of tau_star_correct; the overflowing input is reported separately (C16 known finding)"],
@@ -999,7 +999,7 @@ PROPS = {
                       "(before, the constant was renamed c__s and comparisons between constants could change: the literal property was false, witness rename_keeps_symbols_witness); a renamed problem is refuted by J iff the original is refuted by J read through the renaming (sat_renameProps). "
                       "strong_equivalence_sound_no_side_condition - for a universal task, if no emitted problem has a countermodel the programs have the same HT models (no hypothesis on names; reading_surjective, direction_countermodel); strong_equivalence_complete_with_renaming - the converse through the readings. The check also verifies on every generated task that the constants of the emitted problems are constants of the programs.",
         "level_note": PROOF_NOTE,
-        "technique": "Lean 4 proof by composition (tau*/mu correctness, both portfolios, gamma_correct, decomposition theorems, transition-axiom semantics, semantics of the propositional renaming) + end-to-end differential correspondence",
+        "technique": "Lean 4 proof by composition (tau*/mu correctness, both portfolios, gamma_correct, decomposition theorems, transition-axiom semantics, semantics of the propositional renaming) + end-to-end differential correspondence + the real command line against the model on tasks and files",
         "design_ref": "DESIGN.md 6/C03",
         "trusted_base": COMMON_TRUST,
         "assumptions": COMMON_ASSUME + ["fixpoint simplification inside the pipeline is compared up to a pass bound of 256"],
@@ -1016,7 +1016,7 @@ PROPS = {
                       "semantics; tightness exact by C11; induction on the number of reachable predicates); the formula level (tau* formulas closed, split into constraints / partial definitions, grouping by head atom, "
                       "empty definitions for predicates without rules, inputs left open, meaning of each completed definition); non_tight_counterexample shows tightness is needed.",
         "level_note": PROOF_NOTE,
-        "technique": "Lean 4 proof (Fages' theorem at the level of the reference semantics, formula-level semantics of the completed definitions, refusal of non-completable theories) + differential correspondence",
+        "technique": "Lean 4 proof (Fages' theorem at the level of the reference semantics, formula-level semantics of the completed definitions, refusal of non-completable theories) + differential correspondence + the real command line against the model on tasks and files",
         "design_ref": "DESIGN.md 6/C04",
         "trusted_base": COMMON_TRUST,
         "assumptions": COMMON_ASSUME,
@@ -1031,7 +1031,7 @@ PROPS = {
                       "an instance in which a variable of int_variables has a non-integer value holds vacuously (ruleInst_vacuous). Terms of the first kind are single-valued (p2f_sem), head intervals range over "
                       "fresh integer variables whose freshness is proved (headFreshOK: names N<i>, N<i>_<j> are pairwise distinct and not among the head's variables).",
         "level_note": PROOF_NOTE,
-        "technique": "Lean 4 proof (single-valuedness of first-kind terms, vacuity of non-integer instances, head intervals by fresh integer binders, composition with tau_star_correct) + differential correspondence",
+        "technique": "Lean 4 proof (single-valuedness of first-kind terms, vacuity of non-integer instances, head intervals by fresh integer binders, composition with tau_star_correct) + differential correspondence + the real command line against the model on tasks and files",
         "design_ref": "DESIGN.md 6/C08",
         "trusted_base": COMMON_TRUST,
         "assumptions": COMMON_ASSUME,
@@ -1046,7 +1046,7 @@ PROPS = {
                       "by a counting argument), hence tight_iff_acyclic (reported tight iff no predicate depends positively on itself); choice_private_is_recursion, regular_iff (C08). "
                       "The model's cycle test replaces petgraph's and is compared with it on every generated input.",
         "level_note": PROOF_NOTE + " petgraph's is_cyclic_directed is replaced by an explicit reachability test in the model.",
-        "technique": "Lean 4 proof (soundness and completeness of the cycle test, enforcement of the applicability checks before any obligation) + differential correspondence",
+        "technique": "Lean 4 proof (soundness and completeness of the cycle test, enforcement of the applicability checks before any obligation) + differential correspondence + the real command line against the model on tasks and files",
         "design_ref": "DESIGN.md 6/C11",
         "trusted_base": COMMON_TRUST,
         "assumptions": COMMON_ASSUME,
@@ -1132,7 +1132,7 @@ PROPS = {
                       "private recursion, private_extents_unique, by induction on the rank in the private dependency graph); external_refutes_specification - the same for a specification (annotated formulas, every role and direction annotation the task accepts) against a program: refuted iff the interpretation satisfies the user-guide assumptions, the specification's universal assumptions and the program's private definitions and either (forward) satisfies the specification's forward premises (forward assumptions, universal/forward spec formulas) without being a stable model of the program, or (backward) is a stable model of the program and falsifies a universal/backward spec formula (specification_roles: which annotation plays which part; a backward-annotated assumption of the specification is dropped by the code); external_refutes_programs_with_placeholders / external_refutes_specification_with_placeholders - both statements for user guides that declare placeholders of any sort: a program with placeholders is read as the reference semantics prescribes, every placeholder replaced by the precomputed term the interpretation assigns to it (Program.substSym (phNu m J.fc)); rests on tauStar_substSym and completion_substSym (tau* and completion commute with the substitution of closed terms for symbolic constants; replace_placeholders is an instance) and sat_substSym_congr (only the values of the substituted terms matter); external_sound_with_outline - for EVERY accepted task (placeholders, proof outline with lemmas, inductive lemmas, definitions of any direction): if no emitted problem (outline problems and final problems) has a countermodel, no interpretation satisfying the user-guide assumptions witnesses a difference in a requested direction; rests on assembled_outline_sound (an accepted outline does not change what is claimed), C13 outline_sound and proofOutlineFrom_defsExt (accepted definitions can be made true by re-interpreting only the predicates they define). With an outline the converse is not claimed (a false lemma has a countermodel although the sides agree). The literal property was FALSE on the unchanged tree at two points: the missing-output defect (repaired; missing_output_now_refutable) and the private rename clash (repaired; rename_clash_now_separated; private_renaming_fresh: the names chosen for clashing private predicates are no predicates of the task and pairwise different, by pigeonhole on the injective family p, p1, p2, ...; "
                       "one_interpretation_carries_both_readings: any extents for the two sides that agree on the public predicates are read off one interpretation, the program side through the renaming). Corpus witnesses of both are replayed on the implementation and reported if they ever fail again. every_accepted_program_task_sound / every_accepted_specification_task_sound - the property's conclusion about the programs alone for EVERY accepted task (placeholders of any sort, simplification on or off, proof outlines with lemmas, inductive lemmas and definitions): if no emitted problem has a countermodel (NO side condition: renaming_is_irrelevant_for_validity - since fix 611037e rename_conflicting_symbols renames propositional predicates to free names, and an emitted problem has a countermodel as soon as the parts it was assembled from can be refuted; external_sound_no_side_condition), then in each requested direction every stable model of one program (read with the placeholder values, under the user-guide assumptions) has the same public part as some stable model of the other, resp. the program meets the specification and the specification admits only behaviours of the program; valid_problems_imply_external_equivalence / valid_problems_imply_specification_met - the same for tasks without an outline, with the side condition of the two-sided theorems; rests on private_definitions_satisfiable (without private recursion the private predicates always have extents satisfying their completed definitions: iteration of the supported operator, stable after rank+1 rounds), one_interpretation_carries_both_readings, and definitions_keep_their_role_under_simplification (the classic portfolio never changes the head predicate of a formula of a completed theory: none of the 15 rewrites touches an equivalence at the root or below one universal quantifier, and a constraint never acquires a head because tau* bodies contain no implication or equivalence and every rewrite preserves that) - so simplification cannot turn a private definition into a conjecture or a constraint into an assumption.",
         "level_note": PROOF_NOTE,
-        "technique": "Lean 4 proof (composition of the tau*, completion, simplification, decomposition and assembly theorems; existence of private extents by iterating the supported operator; pigeonhole freshness of the private and propositional renamings; validity transfer across rename_conflicting_symbols; shape invariants of the classic portfolio) + end-to-end differential correspondence",
+        "technique": "Lean 4 proof (composition of the tau*, completion, simplification, decomposition and assembly theorems; existence of private extents by iterating the supported operator; pigeonhole freshness of the private and propositional renamings; validity transfer across rename_conflicting_symbols; shape invariants of the classic portfolio) + end-to-end differential correspondence + the real command line against the model on tasks and files",
         "design_ref": "DESIGN.md 6/C02",
         "trusted_base": COMMON_TRUST,
         "assumptions": COMMON_ASSUME + ["fixpoint simplification inside the pipeline is compared up to a pass bound of 256"],
@@ -1200,7 +1200,7 @@ PROPS = {
                       "parenthesisation). Printer and parser models are tied to the Rust code by exact correspondence. The formerly excluded case (identifier `not`) was a genuine defect, repaired by fix a1dc9d0. accepted_text_roundtrip_checked - the same for the parser with the numeral-range check of fix 515e4a3 (the parser as it is).",
         "level_note": PROOF_NOTE + " pest itself (PEG matching, implicit skipping, Pratt parser) is modelled from its documentation and source (pest 2.8.2) and tied by the asp_parse correspondence; accepted_text_wf proves that the tree of "
                       "every accepted text is well-formed, so accepted_text_roundtrip needs no hypothesis.",
-        "technique": "Lean 4 proof (character-level parser inversion by induction on terms/atoms/bodies/rules/programs + Pratt inversion) + differential correspondence (printer text, parser trees) + round-trip exploration on the real parser",
+        "technique": "Lean 4 proof (character-level parser inversion by induction on terms/atoms/bodies/rules/programs + Pratt inversion) + differential correspondence (printer text, parser trees) + round-trip exploration on the real parser + the real command line against the model on tasks and files",
         "design_ref": "DESIGN.md 6/C14",
         "trusted_base": COMMON_TRUST + ["the Lean model of pest's PEG semantics (ordered choice, greedy repetition, implicit WHITESPACE/COMMENT skipping) and of its Pratt parser, tied by correspondence"],
         "assumptions": COMMON_ASSUME + ["numerals within isize (beyond it the Rust tree builder panics: C16 known finding)"],
@@ -1220,7 +1220,7 @@ PROPS = {
                       "print and fol_parse correspondences on every run. Four genuine defects repaired (db0baa0, 3af4e16, d0885ee, 2ca6488 - the last found by weakening the theorem's hypothesis to the parser's image). accepted_*_roundtrip_checked - the same for the parsers with the numeral/arity range check of fix 515e4a3 (the parsers as they are).",
         "level_note": PROOF_NOTE + " pest itself is modelled from its documentation and source (2.8.2) and tied by the fol_parse correspondence.",
         "technique": "Lean 4 proof (character-level inversion of the PEG/Pratt parser model on printed text by induction on formula size; image of the parser by fuel induction; Pratt inversion) + differential correspondence "
-                     "(printer text, parser trees) + round-trip exploration on the real parser",
+                     "(printer text, parser trees) + round-trip exploration on the real parser + the real command line against the model on tasks and files",
         "design_ref": "DESIGN.md 6/C15",
         "trusted_base": COMMON_TRUST + ["the Lean model of pest's PEG semantics and Pratt parser, tied by correspondence"],
         "assumptions": COMMON_ASSUME,
